@@ -449,7 +449,7 @@ def explore(cond: Cond, budget: typing.Optional[float] = None, max_cex: int = 25
         verdict = "CEX"
     elif cond.witness is not None and res["witness"]["outcome"] != "ok":
         verdict = "WITNESS-FAILED"
-    elif res["reached"] == 0:
+    elif res["reached"] == 0 and (state["exhausted"] or res["paths"] >= 20):
         verdict = "VACUOUS"
     elif state["exhausted"] and res["unknown_paths"] == 0 and res["ignored_paths"] == 0 and res["spurious"] == 0:
         verdict = "EXHAUSTED"
